@@ -877,6 +877,7 @@ def _region_bounds(body, start_rx, end_rx, kv=None):
     """Region selection inside a fn body. Modes (kv):
        whole=1            the entire body
        body=1             the inside of the block opened on the line of the start anchor (loop / if / closure body)
+       arm=1              the expression of the match arm whose pattern (ending in `=>`) the start anchor matches
        to=stmt            from the start anchor line to the end of the statement containing the end anchor
                           (first `;` at the bracket depth of the region start, or end of a block statement)
        default            from the start anchor line to the end anchor line, extended until brackets balance
@@ -888,6 +889,26 @@ def _region_bounds(body, start_rx, end_rx, kv=None):
     if not ms:
         raise SliceError(f'region start anchor /{start_rx}/ not found')
     s = body.rfind('\n', 0, ms.start()) + 1
+    if kv.get('arm'):
+        # the start anchor matches a match-arm pattern up to and including `=>`: the region is the arm's expression --
+        # the inside of its block, or (an arm without braces) the expression up to the `,` that ends the arm
+        rest = body[ms.end():]
+        first = None
+        for t, d in _depth_scan(rest):
+            first = t
+            break
+        if first is None:
+            raise SliceError('arm=1: nothing after the arm pattern')
+        if first.kind == 'punct' and first.text == '{':
+            open_off = ms.end() + first.s
+            for t, d in _depth_scan(body[open_off:]):
+                if d == 0:
+                    return open_off + 1, open_off + t.s
+            raise SliceError('arm=1: unbalanced block')
+        for t, d in _depth_scan(rest):
+            if (d == 0 and t.kind == 'punct' and t.text == ',') or d < 0:
+                return ms.end(), ms.end() + t.s
+        raise SliceError('arm=1: end of the arm not found')
     if kv.get('body'):
         # block opened by the start anchor: the `{` the anchor ends with, else the first `{` after it
         if body[ms.end() - 1] == '{':
